@@ -423,6 +423,7 @@ func (e *Exec) atLoopHead(s *State, b *ssa.BasicBlock, lr loopRef, depth int) {
 			d0 := e.decAtHead[b]
 			e.obligeK(fmt.Sprintf("loop%d/decreases", lr.idx), "", e.con.Tags, s, fmt.Sprintf("(and (>= %s 0) (< %s %s))", d0, d, d0), "loop "+fmt.Sprint(lr.idx)+" decreases "+spec.DecSrc)
 		}
+		e.obls = append(e.obls, Oblig{Key: fmt.Sprintf("%s/vacuity@backedge%d", shortFunc(e.fn.String()), lr.idx), Kind: "vacuity-backedge", Func: e.fn.String(), Pre: append([]string{}, s.pc...), Goal: "false", Canary: true, Path: e.paths, Desc: "some path through the body of loop " + fmt.Sprint(lr.idx) + " must be feasible", Trace: append([]string{}, s.trace...)})
 		e.endPath()
 		return
 	}
@@ -537,7 +538,7 @@ func (e *Exec) entryModSet() *modSet {
 // function entry keep their entry values at every loop head
 func (e *Exec) frameGoal(s *State, fam string) (string, bool) {
 	sig := e.fams[fam]
-	if len(sig.Args) == 0 || sig.Args[0] != "Ref" || fam == "$alloc" || strings.HasPrefix(fam, "$unbox_") {
+	if len(sig.Args) == 0 || sig.Args[0] != "Ref" || fam == "$alloc" || strings.HasPrefix(fam, "$unbox_") || strings.HasPrefix(fam, "$it.") || strings.HasPrefix(fam, "$txn.") {
 		return "", false
 	}
 	ms := e.entryModSet()
